@@ -18,6 +18,18 @@ def main():
             if not good:
                 ok = False
                 C.log("translator %s failed:\n%s" % (what, log[-2000:]))
+        for tool, args, outfile in need.get("pregen", []):
+            exe, err = C.go_build(tool)
+            if not exe:
+                ok = False
+                C.log("go build %s failed:\n%s" % (tool, err[-2000:]))
+                continue
+            rc, out, e = C.run([exe, C.REPO] + list(args), timeout=300)
+            if rc != 0 or not out.strip():
+                ok = False
+                C.log("generator %s failed:\n%s" % (tool, (out + e)[-2000:]))
+            else:
+                C.write_if_changed(os.path.join(C.COQ, "gen", outfile), out)
     # Coq: full .vo build of every model, proof and property file
     C.coq_project()
     good, log = C.coq_make([], timeout=7000)
